@@ -156,7 +156,9 @@ let snap_oracle (prop : string) (ops : op list) (obs : string list) : string =
        end
      | "C18" ->
        if after_stop then begin
-         let files = List.filter_map (fun ((_, k), d) -> if int_of_n k = 0 then Some d else None) snap in
+         (* (plain files and complete archives - decompressed -; an archive next to its original does not count twice) *)
+         let files = List.filter_map (fun ((_, k), d) -> if int_of_n k = 0 || int_of_n k = 1 then Some d else None)
+             (without_shadowed_archives snap) in
          (* every record exactly once, each file a contiguous run of the log in logging order; when the history came back to
             a file it had written before (a reset onto the same current file, with append), that file holds several runs:
             then the files' record sequences must merge, in order, to exactly the logged sequence *)
@@ -467,17 +469,43 @@ let mt_oracle (case_toks : string list) (obs : string) : string =
   match case_toks with
   | [out; mode; rot; naming; threads; lines; len] ->
     let threads = int_of_string threads and lines = int_of_string lines and len = int_of_string len in
+    (* " q<n>" at the end: a further thread logged Q-<k>, called flush() and looked at the file at once; n = lines not found *)
+    let (obs, flush_misses) =
+      match String.rindex_opt obs ' ' with
+      | Some i when i + 1 < String.length obs && obs.[i + 1] = 'q' ->
+        (String.sub obs 0 i, Some (int_of_string (String.sub obs (i + 2) (String.length obs - i - 2))))
+      | _ -> (obs, None) in
+    let snap = if out = "file" then parse_snapshot obs else [] in
     let stream =
       if out = "file" then
         let cfg = Fmt_driver.lh_config mode rot naming in
-        stream_of cfg (parse_snapshot obs)
+        stream_of cfg snap
       else bytes_of_hex (String.sub obs 2 (String.length obs - 2)) in
     (* what each thread logged, in its order *)
     let expected = List.init threads (fun t -> List.init lines (fun k ->
         let pad = String.make (max 0 (len + (k * 7 + t * 3) mod 11 - 10)) 'x' in
         if t = 0 then bytes_of_string (Printf.sprintf "%c\n" (Char.chr (65 + k mod 26)))     (* thread 0: single letters, incl. "F", "S" *)
         else bytes_of_string (Printf.sprintf "T%d-%d-%s\n" t k pad))) in
-    if merge_check expected (lines_of stream) then "pass" else "fail output-is-not-a-merge-of-the-threads-lines"
+    let expected = match flush_misses with
+      | Some _ -> expected @ [List.init lines (fun k -> bytes_of_string (Printf.sprintf "Q-%d\n" k))]
+      | None -> expected in
+    if not (merge_check expected (lines_of stream)) then "fail output-is-not-a-merge-of-the-threads-lines" else
+    (match flush_misses with
+     | Some n when n > 0 -> Printf.sprintf "fail %d-lines-not-in-the-file-after-flush-returned" n
+     | _ ->
+       (* C08 under concurrency: a file closed by the size criterion exceeds the limit only by its last line *)
+       if out = "file" && rot <> "~" then begin
+         let limit = int_of_string (String.sub rot 1 (String.length rot - 1)) in
+         let cfg = Fmt_driver.lh_config mode rot naming in
+         let files = family_in_order cfg snap in
+         let closed = match List.rev files with [] -> [] | _ :: r -> List.rev r in
+         let over = List.filter (fun f ->
+             match List.rev (lines_of f) with
+             | last :: _ -> List.length f - List.length last > limit
+             | [] -> false) closed in
+         if over <> [] then Printf.sprintf "fail %d-closed-files-exceed-the-limit-by-more-than-their-last-line" (List.length over)
+         else "pass"
+       end else "pass")
   | _ -> "skip shape"
 
 (* ---- C04: at a checkpoint (flush in a synchronous mode, shutdown, last handle dropped) everything accepted is there ---- *)
